@@ -325,6 +325,25 @@ DISCARD_TABLE = {
 }
 
 
+def taken_before(ctx, b, blk, t):
+    """drop-and-replace of a place whose content was moved out with mem::take / Option::take in a
+    block that dominates the drop, with no other `&mut` use of the place in the function"""
+    place = ctx.expr(b, t["p"])
+    takes, others = [], 0
+    for b2, t2 in b.calls():
+        for i, a in enumerate(t2["args"]):
+            if a["k"] in ("copy", "move") and str(a["p"].get("ty", "")).startswith("&mut ") and ctx.expr(b, a) == place:
+                if i == 0 and re.search(r"^core::mem::take$|^core::option::Option::<T>::take$", mir.callee_of(t2) or ""):
+                    takes.append(b2)
+                else:
+                    others += 1
+    if len(takes) != 1 or others or not b.dominates(takes[0], blk):
+        return False
+    # the drop is the first half of an assignment to the same place
+    tgt = t.get("target")
+    return tgt is not None and any(b3 == tgt and st["k"] == "assign" and ctx.expr(b, st["p"]) == place for b3, i, st in b.stmts())
+
+
 def error_discipline(ctx, rule, bodies):
     """Rule D: closed census of (a) live drops of Error-carrying values, (b) error-discarding
     adapters applied to Result<_, darling Error>."""
@@ -345,6 +364,9 @@ def error_discipline(ctx, rule, bodies):
                 if pcs and all(ctx._sat(d, r"^is_some\(.*Iterator(>)?::next\(.*\)\)=False$") for d in pcs):
                     ctx.ob(rule + ".drop", b.key, "drop " + ty[:80], True, "exhausted iterator (dropped on the edge where next() returned None)")
                     continue
+            if key is None and taken_before(ctx, b, blk, t):
+                ctx.ob(rule + ".drop", b.key, "drop " + ty[:80], True, "the place was emptied by mem::take / Option::take and is only now overwritten")
+                continue
             ctx.ob(rule + ".drop", b.key, "drop " + ty[:80], key is not None,
                    "a value that may carry darling errors is dropped on a normal path (bb%d); table rows: %d" % (blk, len(ERROR_DROP_TABLE)))
         for blk, t in b.calls():
@@ -372,6 +394,31 @@ def unit_rejects_non_words(ctx, rule, core):
     unit = [i for i in core["impls"] if i["trait"] == "darling_core::from_meta::FromMeta" and i["self"] == "()"]
     ctx.ob(rule, "<() as FromMeta>", "overridden hooks", len(unit) == 1 and unit[0]["items"] == ["from_word"],
            "`()` overrides %s; Flag::from_meta (used by the derive-time `flatten` option and by Flag fields) calls unwrap_err() on <()>::from_meta for every non-path item" % [u["items"] for u in unit])
+
+
+def callable_args_conditions(ctx, f, callee_rx, positions):
+    """For the call of `f` matching callee_rx: the conditions under which each bool-returning callable
+    handed at `positions` (a closure or a fn item) returns true, with its parameter named `elem`:
+    list of DNFs (one per position), or None."""
+    from vlib import sym as _sym, resalg as _ra
+    calls = ctx.find_calls(f, callee_rx)
+    if len(calls) != 1:
+        return None
+    s_, _ = ctx.sym(f)
+    out = []
+    for i in positions:
+        e = _sym.strip_transparent(s_.operand(calls[0][1]["args"][i]))
+        cb = None
+        if e[0] == "closure":
+            cb = _ra._closure_body(f.crate, e[1])
+            pname = "a2"
+        elif e[0] == "fnptr":
+            cb = ctx.fn(e[1], required=False)
+            pname = "a1"
+        if cb is None:
+            return None
+        out.append([{re.sub(r"^%s\b" % pname, "elem", a) for a in d} for d in ctx.true_conditions(cb)])
+    return out
 
 
 def buffers_only_pushed(ctx, rule):
